@@ -163,11 +163,45 @@ class RealEnv:
                 env.sleeps += 1
                 env.effect("sleep")
 
+        class BufferedWriter:
+            """emulates a buffered file object under process kills: bytes reach the file only on close / release"""
+
+            def __init__(s, p):
+                s.f, s.buf, s.closed, s.name = real_open(p, "wb"), [], False, p
+
+            def write(s, b):
+                s.buf.append(bytes(b))
+                return len(b)
+
+            def _flush(s):
+                if not env.frozen:
+                    s.f.write(b"".join(s.buf))
+                s.f.close()
+                s.closed = True
+
+            def close(s):
+                if s.closed:
+                    return
+                if env.effect("close-flush", s.name):
+                    s._flush()
+
+            def __enter__(s):
+                return s
+
+            def __exit__(s, *a):
+                s.close()
+                return False
+
+            def __del__(s):
+                if not s.closed:
+                    s._flush()
+
         def open_(p, mode="r", *a, **kw):
             if "w" in mode:
                 if not env.effect("open-for-write", p):
                     return real_open(os.devnull, "wb")
-            elif env.sched is not None and p in env.shared:
+                return BufferedWriter(p)
+            if env.sched is not None and p in env.shared:
                 env.sched.yield_point()
             return real_open(p, mode, *a, **kw)
 
@@ -179,7 +213,6 @@ class RealEnv:
                 if not env.effect("pickle.dump", getattr(f, "name", None)):
                     return
                 pickle.dump(obj, f, *a, **kw)
-                f.close()
 
         repl = {"os": _OS, "path": _Path, "makedirs": makedirs, "environ": _Environ, "pickle": _Pickle, "time": _Time,
                 "TemporaryDirectory": TD, "urlretrieve": urlretrieve, "open": open_}
@@ -515,7 +548,8 @@ META = {
                 "established in C18)"],
     "assumptions": ["SHA-256 collision freedom: digest == pinned iff the payload is the pinned file",
                     "os.rename within one directory is atomic (POSIX)",
-                    "the file object passed to pickle.dump is closed when the call returns (CPython reference counting)",
+                    "file writes are buffered: they reach the file when the writer is closed or, for a temporary that is "
+                    "not bound to a name, when CPython releases it on return of the call (reference counting)",
                     "TemporaryDirectory names are unique"],
     "stubs": ["os / os.path / tempfile / urllib.request.urlretrieve / open / hashlib / pickle / gzip / numpy.loadtxt / "
               "time.sleep / os.environ as seen from datasets/_base.py (file-system model)"],
